@@ -2,7 +2,9 @@ package mc
 
 import (
 	"fmt"
+	"runtime"
 	"runtime/debug"
+	"strings"
 )
 
 // Kind of a choice point.
@@ -121,6 +123,22 @@ func (e *Explorer) runOnceIn(prefix []int, r *Run) (x *Exec, infra string) {
 		if r := recover(); r != nil {
 			if d, ok := r.(prefixDiverged); ok {
 				infra = d.msg
+				return
+			}
+			// A panic raised INSIDE the library while the harness was using it
+			// outside one of its own guarded calls (building a resource, Set,
+			// Get ...) is a finding about the library, not an infrastructure
+			// failure: report it as a violation with the panicking function.
+			if site := libraryFrame(); site != "" {
+				prop := e.Name
+				if i := strings.Index(prop, "/"); i > 0 {
+					prop = prop[:i]
+				}
+				x.failed = append(x.failed, Violation{
+					Sig:     fmt.Sprintf("%s:library-panic:%s:%s", prop, site, slugWords(fmt.Sprint(r), 2)),
+					Msg:     fmt.Sprintf("the library panicked in %s while harness %s was using it: %v (choices %v)", site, e.Name, r, x.choices),
+					Harness: e.Name,
+				})
 				return
 			}
 			infra = fmt.Sprintf("harness body panicked: %v\n%s", r, debug.Stack())
@@ -277,4 +295,39 @@ func ReplayChoices(name string, body func(x *Exec), reset func(x *Exec), r *Run,
 		return nil, infra
 	}
 	return x.failed, ""
+}
+
+// libraryFrame returns the innermost function of package jsonapi on the
+// panicking stack ("" if the panic did not come from the library).
+func libraryFrame() string {
+	pcs := make([]uintptr, 64)
+	n := runtime.Callers(3, pcs)
+	frames := runtime.CallersFrames(pcs[:n])
+	for {
+		fr, more := frames.Next()
+		if i := strings.Index(fr.Function, "mfcochauxlaberge/jsonapi."); i >= 0 {
+			fn := fr.Function[i+len("mfcochauxlaberge/jsonapi."):]
+			if !strings.HasPrefix(fn, "mc") && !strings.HasPrefix(fn, "Mc") {
+				return fn
+			}
+		}
+		if !more {
+			return ""
+		}
+	}
+}
+
+func slugWords(s string, n int) string {
+	w := strings.Fields(s)
+	if len(w) > n {
+		w = w[:n]
+	}
+	var b strings.Builder
+	for _, c := range strings.Join(w, "-") {
+		switch {
+		case c >= 'a' && c <= 'z', c >= 'A' && c <= 'Z', c == '-':
+			b.WriteRune(c)
+		}
+	}
+	return b.String()
 }
